@@ -210,7 +210,8 @@ func (c *Ctx) SaveReplay(name string, files map[string]string, inline map[string
 
 	for dst, src := range files {
 		if b, err := os.ReadFile(src); err == nil {
-			if len(b) > 8<<20 {
+			// a trace is only useful whole (the replay validates it again); other files are cut in the middle
+			if len(b) > 8<<20 && !(strings.HasSuffix(dst, ".ndjson") && len(b) <= 160<<20) {
 				b = append(b[:4<<20], b[len(b)-(4<<20):]...)
 			}
 
